@@ -312,6 +312,11 @@ def run(ctx):
     from .c15 import check_grouped_values
     check_grouped_values(ctx, "R20.6")
 
+    # ------------------------------------------------------------------ R20.7 the CSV header follows descriptor equality
+    # (CsvfileWriter writes a new header when `self.desc != r._desc`: equality by a lossy identifier keeps the old header for a different field list)
+    from .c15 import check_descriptor_equality
+    check_descriptor_equality(ctx, "R20.7")
+
 
 
 def _record_derived(recv, fn, prog=None, module=None) -> bool:
